@@ -13,7 +13,7 @@ LEVEL_TEXT = ("Coq theorems over the session model and the extension layer model
               "known by construction, installed with the real luahost and run against real SMTP sessions sequentially and from up to 8 "
               "concurrent sessions. *Partial*: gopher-lua and the script=>outcome mapping are tested, not proved")
 LEVEL_NOTE = ("Coq kernel; extraction; the Lua interpreter (gopher-lua) is third-party: the mapping from a script to its outcome class is by "
-              "construction of the generator and validated by running it; parser oracles as in C01; data races between concurrent handler "
+              "construction of the generator and validated by running it; oracles as in C01 (net.ParseIP, enmime header decoding); data races between concurrent handler "
               "calls are outside a Gallina model (the concurrent stream compares per-session replies and the store multiset)")
 DESIGN_REF = "DESIGN.md §4 C17"
 RULE = ("scripts generated from rule tables over the addresses and subjects of the dialogue: any subset of the five handlers, each rule "
@@ -21,7 +21,7 @@ RULE = ("scripts generated from rule tables over the addresses and subjects of t
         "missing return) / message rewrite of any subset of mailboxes, from, to, subject, optionally abandoned by a late error or wrong-typed "
         "return; distinct = distinct input line; non-trivial = something stored or some 5xx reply")
 TRUSTED = ["gopher-lua executes the generated script as the generator intends (outcome class by construction)",
-           "oracle tables for MAIL/RCPT argument parsing and header decoding are computed by the driver with the real functions"]
+           "net.ParseIP verdicts and enmime header facts are oracles supplied by the driver from the real functions"]
 ASSUMPTIONS = ["hooks do not answer Deny with the codes 250 or 354 (a hook lying about acceptance is outside the property)"]
 NOT_PROVED = []
 
